@@ -201,7 +201,10 @@ def parse_rvalue(s):
         if k >= 0 and s.endswith(")") and not s.startswith("const "):
             op = parse_operand(s[:k])
             rest = s[k + 4:]
-            j = rest.rindex("(")
+            j = None
+            for i, c, d in scan(rest):
+                if c == "(" and d == 0:
+                    j = i
             return ("cast", op, rest[:j].strip(), rest[j + 1:-1].strip())
         if s.startswith("const ") and s.endswith(")"):
             k = find_top(s, " as ")
